@@ -162,6 +162,7 @@ func main() {
 	only := flag.String("func", "", "only functions whose name contains this")
 	dump := flag.Bool("dump", false, "keep all query files")
 	timeout := flag.Int("timeout", 0, "per-obligation timeout in seconds")
+	showLoops := flag.String("loops", "", "print loop ordinals of functions whose name contains this, then exit")
 	flag.Parse()
 	t0 := time.Now()
 	if *out == "" {
@@ -173,6 +174,43 @@ func main() {
 	if err != nil {
 		fmt.Fprintln(os.Stderr, "gvc: load error:", err)
 		os.Exit(2)
+	}
+	if *showLoops != "" {
+		for _, sp := range eng.ssaPkgs {
+			for _, fn := range ssautil_AllFunctionsOf(eng.prog, sp) {
+				if !strings.Contains(fn.String(), *showLoops) || len(fn.Blocks) == 0 {
+					continue
+				}
+				fr := &Frame{fn: fn}
+				fr.analyzeLoops()
+				var hs []int
+				for h := range fr.loops {
+					hs = append(hs, h)
+				}
+				sort.Ints(hs)
+				for _, h := range hs {
+					li := fr.loops[h]
+					pos := token.NoPos
+					for _, ins := range li.header.Instrs {
+						if ins.Pos().IsValid() {
+							pos = ins.Pos()
+							break
+						}
+					}
+					if !pos.IsValid() {
+						for bi := range li.blocks {
+							for _, ins := range fn.Blocks[bi].Instrs {
+								if ins.Pos().IsValid() && (!pos.IsValid() || ins.Pos() < pos) {
+									pos = ins.Pos()
+								}
+							}
+						}
+					}
+					fmt.Printf("%s loop %d: header block %d (%s) %s\n", shortFn(fn), li.ord, h, li.header.Comment, eng.fset.Position(pos))
+				}
+			}
+		}
+		return
 	}
 	to := *timeout
 	if to == 0 {
@@ -300,4 +338,15 @@ func main() {
 		fmt.Printf("MISSING contract target %s\n", m)
 	}
 	fmt.Printf("gvc: property=%s functions=%d obligations=%d ok=%d failed=%d wall=%.1fs out=%s\n", *prop, len(rep.Funcs), len(results), okN, badN, rep.WallS, *out)
+}
+
+func ssautil_AllFunctionsOf(prog *ssa.Program, sp *ssa.Package) []*ssa.Function {
+	var out []*ssa.Function
+	for fn := range ssautil.AllFunctions(prog) {
+		if fn.Pkg == sp {
+			out = append(out, fn)
+		}
+	}
+	sort.Slice(out, func(i, j int) bool { return out[i].String() < out[j].String() })
+	return out
 }
